@@ -51,11 +51,12 @@ def gen_codec_case(rng, cid):
             cnt = rng.choice([0, 1, 255, 256, rng.randint(0, 300)])
             lines.append("henc srv=%d ct=%d ty=%d seq=%d ack=%d bits=%d len=%d cnt=%d" % (srv, f["ct"], ty, f["seq"], f["ack"], f["bits"], ln, cnt))
         else:
-            n = rng.choice([0, 1, 1, 2, 3, 3, 254, 255, 256]) if rng.random() < 0.85 else rng.randint(4, 40)
+            n = rng.choice([0, 1, 1, 2, 3, 3, 127, 128, 129, 200, 254, 255, 256]) if rng.random() < 0.85 else rng.randint(4, 40)
             msgs = []
+            bad_at = rng.randrange(n) if (n and rng.random() < 0.1) else -1      # one out-of-range message number in a tenth of the packets
             for i in range(n):
                 ms = rng.choice([0, 1, 65535, rng.randint(0, 65535)])
-                if rng.random() < 0.02:
+                if i == bad_at:
                     ms = 65536
                 pl = connlib.lcg_bytes(rng.choice([0, 0, 1, 2, 5, 20]) if n > 3 else rng.choice([0, 1, 2, 7, 100, 1434]), rng.randint(1, 9999))
                 msgs.append("%d:%d:%s" % (ms, rng.randint(0, 7), pl.hex() or "-"))
@@ -240,7 +241,7 @@ def run(ctx):
 
     def impl_codec(case):
         o = codec.run_case(case)
-        outs[core.case_id(case)] = o
+        outs.setdefault(core.case_id(case), o)      # the first run is the full case (minimisation re-runs shortened ones)
         return o
     ctx.correspondence("Wire(codec)", "Conn", ccases, impl_codec,
                        lambda c, o: any(x.startswith("err") or x.startswith("hdrerr") for x in o), RULE)
